@@ -228,6 +228,12 @@ def check_colourful(case):
                             note(r, c, px[y][x], exp[r][c])
         else:
             d = vector.read_svg(data)
+            fs = vector.F(str(scale))
+            if any(abs(p - t * fs) > vector.F(1, 10 ** 6) * t * fs for p in d['page']):
+                devs.append(Dev('C11/svg-page', 'page %s, expected %s' % ([float(p) for p in d['page']], float(t * fs))))
+            scales = {sc for (*_x, sc) in d['segments'] if _x[0] is not None} | {bg[2] for bg in d['backgrounds']}
+            if any(abs(sc - fs) > vector.F(1, 10 ** 6) * fs for sc in scales):
+                devs.append(Dev('C11/svg-scale', 'paths are scaled by %s, expected %s' % (sorted(float(x) for x in scales), float(fs))))
             painted = [[None] * t for _ in range(t)]
             for fill, rect, sc, pos in d['backgrounds']:
                 if tuple(rect) != (0, 0, t, t):
@@ -334,7 +340,7 @@ def colourful_cases(draw):
     cap = max(1, 300 // (n + 8))
     sc = min(cap, draw(st.sampled_from([1, 1, 2, 3, 4])))
     if kind == 'svg':
-        sc = draw(st.sampled_from([1, 2, 1.5, 0.5]))
+        sc = draw(st.sampled_from([1, 2, 1.5, 0.5, 3]))
     opts['scale'] = sc
     b = draw(st.sampled_from([None, 0, 1, 4]))
     if b is not None:
